@@ -6,6 +6,8 @@ RB = ['decoder->bit_stream_reader']
 
 def lhnew(name, method_file, tiers, extra_defs=(), props_extra=(), big=None):
     base_defs = ['VG_METHOD_FILE="%s"' % method_file] + list(extra_defs)
+    if big:
+        base_defs += ['VG_OB=%d' % big['ob'], 'VG_NC=%d' % big['nc'], 'VG_LHARK=%d' % big['lhark']]
     P = ['C09'] + list(props_extra)
     G = []
     def g(fn, entry, route='dfcc', enforce=None, replace=(), defs=(), timeout=300, suffix='', props=None, **kw):
@@ -79,7 +81,7 @@ def lhnew(name, method_file, tiers, extra_defs=(), props_extra=(), big=None):
     g('dtype', 'h_dtype', route='plain', props=P + ['C14'])
     if big:
         red = ['VG_OB=%d' % big['ob'], 'VG_NC=%d' % big['nc'], 'VG_LHARK=%d' % big['lhark']]
-        g('params', 'h_params', route='plain', defs=red)
+        g('params', 'h_params', route='plain')
         # ring-touching functions: SAT cannot carry >= 64 KiB arrays; prove them at the REAL size on the SMT route
         G[:] = [x for x in G if x['id'] not in ('%s.output_byte' % name, '%s.copy_from_history' % name, '%s.lha_lh_new_read' % name)]
         g('output_byte', 'h_output_byte_hm', route='plain', defs=['VG_HARNESS_MODE'], backend=['cvc5', 'z3'], timeout=600,
@@ -88,7 +90,7 @@ def lhnew(name, method_file, tiers, extra_defs=(), props_extra=(), big=None):
             if x['id'] == '%s.copy_from_history.func' % name:
                 x['props'] = ['C01', 'C09', 'C13']
                 x['note'] = 'real ring size: memory safety (bounds/pointer checks on), termination variant and LZ77 semantics of the copy loop in one harness-mode group (legacy loop contract, SMT)'
-        g('lha_lh_new_read', 'h_read', enforce='lha_lh_new_read', timeout=900, defs=red + ['VG_REDUCED_RING'],
+        g('lha_lh_new_read', 'h_read', enforce='lha_lh_new_read', timeout=900, defs=['VG_REDUCED_RING'],
           replace=['start_new_block', 'read_code', 'output_byte', 'copy_from_history'] + (['lhark_decode_copy_count'] if big['lhark'] else []),
           note='REDUCED RING (HISTORY_BITS 14, real OFFSET_BITS/NUM_CODES): this function never indexes the ring itself; parametricity in HISTORY_BITS is an unchecked assumption (DESIGN.md section 2 item 7)')
     return dict(unit=name, harness='harness/h_lhnew.c', groups=G)
